@@ -1,5 +1,6 @@
 import EudoxiaModel.Proofs.Lift
 import EudoxiaModel.Proofs.WorldDeadSusp
+import EudoxiaModel.Proofs.FreshWorlds
 /-! # C10 — suspension only between operators, lasts RAM/20 s, returns work intact -/
 namespace Eudoxia.C10
 open Eudoxia OpState Extracted
@@ -153,5 +154,23 @@ theorem write_out_end_returns_the_unfinished_operators (w0 w1 : World) (asgs : L
   · exact Or.inl h
   · obtain ⟨x1, x2, x3, _⟩ := hj c h
     exact Or.inr ⟨x2, x1.pre, x3⟩
+
+/-- **over whole runs of `priority` with multi-operator containers** (the shipped scheduler that suspends): on every tick of every run from a fresh world
+with a well-formed workload, every container that is being written out still has work left (it was suspended between two operators, never after its last),
+and every container whose write-out ended in the last tick is in a suspended list, not ended, with a non-empty unfinished suffix all of which is PENDING
+again — the work comes back intact — and the scheduler remembers a job for it under its number (so it is offered again: C12) -/
+theorem suspended_work_comes_back_intact_on_every_tick_of_every_priority_run (cfg : Cfg) (store : Store) (pipes : Array PipeInfo) (caps : List (Nat × Nat))
+    (arrivals : List (List Nat)) (hm : cfg.multiOp = true) (ho : cfg.overcommit = false) (hq : 0 < cfg.q)
+    (wf : (freshWorld cfg store pipes caps).WFP) (hs : (freshWorld cfg store pipes caps).SegsOK) (hp : (freshWorld cfg store pipes caps).PidOK)
+    (ht : (freshWorld cfg store pipes caps).Topo) (hF : arrivals.flatten.Nodup)
+    (hfut : ∀ pid ∈ arrivals.flatten, (pipes.getD pid default).order ≠ [] ∧ ∀ o ∈ (pipes.getD pid default).order, store.stOf o = pending) :
+    ∃ (w' : World) (st' : Prio.St) (cs' js' : List Ctr), Prio.loop (freshWorld cfg store pipes caps) {} [] arrivals = .ok (w', st', cs'.map mkRes) ∧
+      (∀ p ∈ w'.pools, ∀ c ∈ p.suspending, c.unfinished ≠ []) ∧
+      (∀ c ∈ js', c.completed = false ∧ c.unfinished ≠ [] ∧ (∀ o ∈ c.unfinished, w'.store.stOf o = pending) ∧ (∃ p ∈ w'.pools, c ∈ p.suspended) ∧
+        c.cid ∈ st'.susp.map (·.1)) := by
+  obtain ⟨w', st', cs', js', h, inv⟩ := PM.run_never_raises arrivals _ {} [] [] (PM.fresh_inv cfg store pipes caps _ hm ho hq wf hs hp ht hF hfut)
+  refine ⟨w', st', cs', js', h, inv.sne, fun c hc => ?_⟩
+  obtain ⟨_, a2, a3, _, a5, a6⟩ := inv.park c hc
+  exact ⟨a2, a5, a3, a6, inv.has c hc⟩
 
 end Eudoxia.C10
